@@ -21,7 +21,19 @@ class ParseRoles:
             for v in a['variants']:
                 if any(fl['ty'].startswith('std::str::CharIndices<') for fl in v['fields']):
                     self.tok_adt = a
+        # the scanning state may be a private struct nested in the tokenizer proper (`struct Tokenizer { cursor: Cursor, .. }`):
+        # scan_adt owns input + char iterator, tok_adt is the struct whose `(&mut Self) -> Result<Token>` produces tokens
+        self.scan_adt = self.tok_adt
+        if self.tok_adt and not any(b.arg_count == 1 and b.locals[1]['ty'].startswith('&mut ' + self.tok_adt['name']) and r_errd.is_crate_result(b.locals[0]['ty'])
+                                    for b in prog.bodies if not b.is_closure):
+            sn = self.tok_adt['name']
+            owners = [a for a in f.adts if a['name'] != sn and len(a['variants']) == 1
+                      and any(re.sub(r'<.*$', '', fl['ty']) == sn for fl in a['variants'][0]['fields'])
+                      and any(b.arg_count == 1 and b.locals[1]['ty'].startswith('&mut ' + a['name']) and r_errd.is_crate_result(b.locals[0]['ty']) for b in prog.bodies if not b.is_closure)]
+            if len(owners) == 1:
+                self.tok_adt = owners[0]
         self.tok_name = self.tok_adt['name'] if self.tok_adt else None
+        self.scan_names = {a['name'] for a in (self.tok_adt, self.scan_adt) if a}
         self.entry = prog.api('parse_expression')
         self.reach = prog.reach([self.entry.id]) if self.entry else set()
         # TOKEN-NEXT: (&mut Tokenizer) -> Result<Token, Error>
@@ -117,6 +129,10 @@ class ParseRoles:
         cache[tag] = v
         return v
 
+    def is_scanner_ty(self, ty):
+        """the type (of a receiver) is the tokenizer or its nested scanning state"""
+        return any(n in (ty or '') for n in self.scan_names)
+
     def token_bodies(self, views=False):
         """the bodies below parse_expression; views=True: each read with the closures it hands to Option / Result
         combinators inlined (those closures are then not listed on their own)"""
@@ -141,7 +157,7 @@ class ParseRoles:
                 # private *value* helpers of the scanner (`span_from(&self, start)`, `text_from(&self, start)`): they
                 # cannot advance (shared receiver) and only package positions / slices; the position reads themselves
                 # (usize) and look-aheads stay calls, because the rules recognise those by role
-                if g.arg_count >= 1 and self.tok_name and g.locals[1]['ty'].startswith('&' + self.tok_name) and not g.is_closure:
+                if g.arg_count >= 1 and self.tok_name and any(g.locals[1]['ty'].startswith('&' + n) for n in self.scan_names) and not g.is_closure:
                     ret = g.locals[0]['ty']
                     if ret not in ('usize', 'bool', 'char') and not ret.startswith('std::option::Option<(usize, char)') and 'Result<' not in ret:
                         return False
